@@ -86,3 +86,78 @@ func TestLbvcScenarioFailover(t *testing.T) {
 		t.Fatalf("LBVC-REPRODUCED (obligation %s): %s", os.Getenv("LBVC_OBLIGATION"), strings.Join(problems, "; "))
 	}
 }
+
+// Witnesses of a leader failure must be in-sync followers of the CURRENT leader when they are counted: a witness
+// that was dropped from the in-sync set, or that reported the previous leader while its replacement was in flight,
+// does not count. Single-node controller a; partition bar/0 with replicas l w x y z (none of them is a real server).
+func TestLbvcScenarioWitnesses(t *testing.T) {
+	obl := os.Getenv("LBVC_OBLIGATION")
+	var problems []string
+	setup := func(isr []string) (*Server, *partition) {
+		cleanupStorage(t)
+		cfg := getTestConfig("a", true, 5050)
+		cfg.Clustering.ReplicaMaxLeaderTimeout = 10 * time.Second
+		s1 := runServerWithConfig(t, cfg)
+		getMetadataLeader(t, 10*time.Second, s1)
+		op := &proto.RaftLog{Op: proto.Op_CREATE_STREAM, CreateStreamOp: &proto.CreateStreamOp{Stream: &proto.Stream{
+			Name: "bar", Subject: "bar", Partitions: []*proto.Partition{{Stream: "bar", Subject: "bar", Id: 0, ReplicationFactor: 5,
+				Replicas: []string{"l", "w", "x", "y", "z"}, Isr: isr, Leader: "l"}}}}}
+		fut, err := s1.getRaft().applyOperation(context.Background(), op, nil)
+		if err != nil || fut.Error() != nil {
+			s1.Stop()
+			return nil, nil
+		}
+		return s1, s1.metadata.GetPartition("bar", 0)
+	}
+	ctx := context.Background()
+	if obl == "" || strings.Contains(obl, "RemoveFromISR") || strings.Contains(obl, "forget") {
+		if s1, bp := setup([]string{"l", "w", "x", "y", "z"}); bp != nil {
+			l0, e0 := bp.GetLeader()
+			rep := func(who string) {
+				l, e := bp.GetLeader()
+				s1.metadata.ReportLeader(ctx, &proto.ReportLeaderOp{Stream: "bar", Partition: 0, Replica: who, Leader: l, LeaderEpoch: e})
+			}
+			rep("w")
+			rep("x")
+			for _, r := range []string{"w", "x"} {
+				s1.metadata.ShrinkISR(ctx, &proto.ShrinkISROp{Stream: "bar", Partition: 0, ReplicaToRemove: r, Leader: l0, LeaderEpoch: e0})
+			}
+			rep("y")
+			if l1, e1 := bp.GetLeader(); l1 != l0 {
+				problems = append(problems, fmt.Sprintf("in-sync set {l w x y z}: w and x report the leader, the leader drops both from the in-sync set (now %v), then ONE of the two remaining in-sync followers reports: leader %s epoch %d replaced by %s epoch %d", bp.GetISR(), l0, e0, l1, e1))
+			}
+			s1.Stop()
+		}
+	}
+	if obl == "" || strings.Contains(obl, "ChangeLeader") {
+		if s1, bp := setup([]string{"l", "w", "x"}); bp != nil {
+			l0, e0 := bp.GetLeader()
+			fired := false
+			verifHook = func(name string) {
+				if name != "electNewPartitionLeader:candidate-selected" || fired {
+					return
+				}
+				fired = true
+				// the periodic repeat of a report about the leader that is being replaced
+				s1.metadata.ReportLeader(ctx, &proto.ReportLeaderOp{Stream: "bar", Partition: 0, Replica: "w", Leader: l0, LeaderEpoch: e0})
+			}
+			s1.metadata.ReportLeader(ctx, &proto.ReportLeaderOp{Stream: "bar", Partition: 0, Replica: "w", Leader: l0, LeaderEpoch: e0})
+			s1.metadata.ReportLeader(ctx, &proto.ReportLeaderOp{Stream: "bar", Partition: 0, Replica: "x", Leader: l0, LeaderEpoch: e0})
+			verifHook = nil
+			l1, e1 := bp.GetLeader()
+			if fired && l1 != l0 {
+				// one single report about the NEW leader, by an in-sync follower of it
+				who := "l"
+				s1.metadata.ReportLeader(ctx, &proto.ReportLeaderOp{Stream: "bar", Partition: 0, Replica: who, Leader: l1, LeaderEpoch: e1})
+				if l2, e2 := bp.GetLeader(); l2 != l1 {
+					problems = append(problems, fmt.Sprintf("in-sync set {l w x}: the fail-over l -> %s (epoch %d) was in flight when w repeated its report about l; afterwards ONE report about %s (by %s, one of its two in-sync followers) replaced it by %s (epoch %d)", l1, e1, l1, who, l2, e2))
+				}
+			}
+			s1.Stop()
+		}
+	}
+	cleanupStorage(t)
+	if len(problems) > 0 {
+		t.Fatalf("LBVC-REPRODUCED (obligation %s): %s", obl, strings.Join(problems, "; "))
+	}
+}
